@@ -122,6 +122,7 @@ pub enum ReverseStep {
     PopSpecial,
     PushSpecial(Special),
     DropLocal(usize),
+    SetLocal(usize, Cell),
     SwapRef(CellRef, Cell),
 }
 
@@ -1094,13 +1095,16 @@ impl State {
                 let idx = *i;
                 let val = self.pop_data()?;
                 let frame = self.top_frame()?;
-                if idx < frame.locals.len() {
-                    frame.locals[idx] = val;
+                let undo = if idx < frame.locals.len() {
+                    // the local is re-initialised (e.g. inside a loop): keep the overwritten value
+                    let old = std::mem::replace(&mut frame.locals[idx], val);
+                    ReverseStep::SetLocal(idx, old)
                 } else {
                     frame.locals.push_back_mut(val);
-                }
+                    ReverseStep::DropLocal(idx)
+                };
                 if self.is_recording() {
-                    self.add_reverse_step(ReverseStep::DropLocal(idx));
+                    self.add_reverse_step(undo);
                 }
                 self.next_ip();
             }
@@ -1270,6 +1274,14 @@ impl State {
             ReverseStep::DropLocal(_) => {
                 let f = self.top_frame()?;
                 f.locals.drop_last_mut();
+            }
+            ReverseStep::SetLocal(idx, val) => {
+                let f = self.top_frame()?;
+                if idx < f.locals.len() {
+                    f.locals[idx] = val;
+                } else {
+                    return Err(Xerr::local_out_of_bounds(idx));
+                }
             }
             ReverseStep::SwapRef(cref, val) => {
                 let idx = cref.index();
@@ -2250,7 +2262,12 @@ fn foreach_next(xs: &mut State) -> Xresult {
         .range.start;
     if idx == 0 {
         let items = xs.pop_data()?;
-        xs.loops.last_mut().unwrap().items = items;
+        let l = xs.loops.last_mut().unwrap();
+        let old = l.clone();
+        l.items = items;
+        if xs.is_recording() {
+            xs.add_reverse_step(ReverseStep::LoopNextBack(old));
+        }
     }
     OK
 }
